@@ -200,9 +200,9 @@ Definition wsobs_eqb (a b : wsobs) : bool :=
    envelopes and injected raw frames, in action order) and the results of the
    Reads that consumed a frame correspond one to one, in order: an envelope
    written arrives equal; a text frame is an error; an injected binary frame is
-   delivered only as an envelope (what it is is the wire-format check's
-   business); nothing else is ever delivered *)
-Inductive sentk := SEnv (e : rpc) | SText | SBin.
+   delivered iff it is an envelope according to the wire format, as that
+   envelope; nothing else is ever delivered *)
+Inductive sentk := SEnv (e : rpc) | SText | SBin (bs : bytes).
 Fixpoint ws_sent_of (acts : list (wsact rpc bytes)) (evs : list (wsev rpc)) : list sentk :=
   match acts with
   | [] => []
@@ -212,7 +212,7 @@ Fixpoint ws_sent_of (acts : list (wsact rpc bytes)) (evs : list (wsev rpc)) : li
       | WsEvWrite _ ok :: evs' => (if ok then [SEnv e] else []) ++ ws_sent_of t evs'
       | _ => ws_sent_of t evs
       end
-  | WsInject f :: t => (if f_bin f then SBin else SText) :: ws_sent_of t evs
+  | WsInject f :: t => (if f_bin f then SBin (f_data f) else SText) :: ws_sent_of t evs
   | _ :: t => ws_sent_of t evs
   end.
 Fixpoint ws_match (sent : list sentk) (res : list (wsres rpc)) : bool :=
@@ -222,7 +222,9 @@ Fixpoint ws_match (sent : list sentk) (res : list (wsres rpc)) : bool :=
       (match k, r with
        | SEnv e, WsMsg e' => rpc_eqb e e'
        | SText, WsNonBinary => true
-       | SBin, (WsMsg _ | WsDecode) => true
+       (* "undecodable bytes" is what the wire format says: Model/WireFormat.decode *)
+       | SBin bs, WsMsg e' => opt_eqb rpc_eqb (decode bs) (Some e')
+       | SBin bs, WsDecode => match decode bs with None => true | Some _ => false end
        | _, _ => false
        end) && ws_match sent' res'
   | _ :: _, [] => false
